@@ -266,8 +266,10 @@ def check(prop, tier="quick", seed=0, jobs=None, replay=None, repo=None, quiet=F
             "wall_s": round(wall, 2),
             "violations": len(violations),
         }
-        os.makedirs(os.path.join(VERIF, "evidence"), exist_ok=True)
-        with open(os.path.join(VERIF, "evidence", "%s.json" % prop), "w") as fh:
+        # evidence/ holds what was observed on /repo itself; runs against another checkout (seeded changes) go elsewhere
+        evdir = "evidence" if repo == os.path.realpath("/repo") else ".scratch_evidence"
+        os.makedirs(os.path.join(VERIF, evdir), exist_ok=True)
+        with open(os.path.join(VERIF, evdir, "%s.json" % prop), "w") as fh:
             json.dump(ev, fh, indent=1, default=str)
 
         for ln in lines:
